@@ -343,8 +343,112 @@ def check_job(job):
         out.append(dataflow_obligation(job, order))
     if job["kind"] == "pair":
         out.extend(corruption_obligations(job))
+        out.extend(object_corruption_obligations(job))
         out.extend(constant_obligations(job))
+        out.append(metadata_obligation(job))
     return out
+
+
+def object_corruption_obligations(job):
+    """Concrete: the signatures agree but ONE ELEMENT of the second object is not what its signature says (a signal of another
+    width or initial value, also at array indices above 0): connect() must refuse the tuple."""
+    spec = job["spec"]
+    r = random.Random((hash(job["id"]) & 0xffff) + 13)
+    out = []
+    tops = [(name, flow, m) for (name, flow, m) in spec[1] if m[0] == "port" and m[1][0] in ("u", "s") and all(d > 0 for d in m[3])]
+    if not tops:
+        return out
+    for kind in ("element width", "element initial value"):
+        name, flow, m = r.choice(tops)
+        _, shp, init, dims = m
+        idx = tuple(d - 1 if r.random() < 0.7 else r.randrange(d) for d in dims)      # mostly the LAST element
+        base = {"id": f"{job['id']}-objcorrupt-{kind.split()[-1]}", "kind": "ConnectionError on a non-compliant object (concrete)", "nontrivial": False,
+                "program": job["text"] + f"  with q.{name}{''.join(f'[{i}]' for i in idx)} replaced by a signal of another {kind.split(' ', 1)[1]}",
+                "assertion": "connect() raises ConnectionError when an element of an interface object does not comply with its signature, wherever it stands in an array"}
+        try:
+            with warnings.catch_warnings():
+                warnings.simplefilter("ignore")
+                p_obj = build_sig(spec).create(path=("p",))
+                q_obj = build_sig(spec).create(path=("q",))      # the plain object; it is handed to connect() flipped
+                w, sgn = shp[1], shp[0] == "s"
+                cur = 0 if init is None else init
+                bad = Signal(Shape(w + 1, sgn)) if kind == "element width" else Signal(Shape(max(w, 1), sgn), init=(cur ^ 1) if not sgn else (0 if cur else -1))
+                if kind == "element initial value" and w == 0:
+                    continue
+                if not idx:
+                    setattr(q_obj, name, bad)
+                else:
+                    lst = getattr(q_obj, name)
+                    for i in idx[:-1]:
+                        lst = lst[i]
+                    lst[idx[-1]] = bad
+                m_ = Module()
+                try:
+                    connect(m_, p_obj, flipped(q_obj))
+                    raised = None
+                except wiring.ConnectionError as ex:
+                    raised = ex
+        except Exception as ex:
+            out.append(dict(base, status=VIOLATION, detail=f"{base['program']}: raised {type(ex).__name__}: {str(ex)[:200]} instead of ConnectionError",
+                            signature={"kind": "object-corruption-exception"}, replay={"job": job}))
+            continue
+        if raised is None:
+            out.append(dict(base, status=VIOLATION, detail=f"{base['program']}: connect() accepted the non-compliant object", signature={"kind": "object-corruption-accepted"},
+                            replay={"job": job}))
+        else:
+            out.append(dict(base, status=PROVED))
+    return out
+
+
+def _raw_init(shp, init):
+    if shp[0] == "struct":
+        d = init or {}
+        return (d.get("a", 0) & 3) | ((d.get("b", 0) & 3) << 2)
+    return 0 if init is None else init
+
+
+def metadata_obligation(job):
+    """Concrete: component metadata lists every leaf with its true direction, width, signedness and initial value, and the
+    JSON validates against the published schema."""
+    spec = job["spec"]
+    base = {"id": f"{job['id']}-metadata", "kind": "component metadata (concrete)", "nontrivial": False, "program": job["text"],
+            "assertion": "ComponentMetadata.as_json() lists every leaf with effective direction, width, signedness, initial value; it validates against the schema"}
+    try:
+        with warnings.catch_warnings():
+            warnings.simplefilter("ignore")
+            S = build_sig(spec)
+
+            class Comp(wiring.Component):
+                def __init__(self):
+                    super().__init__(S)
+
+                def elaborate(self, platform):
+                    return Module()
+            js = Comp().metadata.as_json()
+            wiring.ComponentMetadata.validate(js)
+    except Exception as ex:
+        return dict(base, status=VIOLATION, detail=f"{job['text']}: metadata.as_json()/validate raised {type(ex).__name__}: {str(ex)[:300]}",
+                    signature={"kind": "metadata-exception"}, replay={"job": job})
+    bad = []
+    for path, eff, shp, init in ref_leaves(spec, False):
+        node = js["interface"]
+        try:
+            for k in path:
+                node = node["members"][k] if isinstance(k, str) else node[k]
+        except (KeyError, IndexError, TypeError):
+            bad.append(f"{list(path)} missing")
+            continue
+        sh = shape_of(shp)
+        cs = Shape.cast(sh)
+        want = {"type": "port", "dir": eff, "width": cs.width, "signed": cs.signed}
+        got = {k: node.get(k) for k in want}
+        raw = _raw_init(shp, init)
+        want_init = raw - (1 << cs.width) if (cs.signed and cs.width and (raw >> (cs.width - 1)) & 1 and raw >= 0) else raw
+        if got != want or int(node.get("init", "x") if str(node.get("init", "x")).lstrip("+-").isdigit() else -999999) != want_init:
+            bad.append(f"{list(path)}: {dict(got, init=node.get('init'))} vs {dict(want, init=str(want_init))}")
+    if bad:
+        return dict(base, status=VIOLATION, detail=f"{job['text']}: " + "; ".join(bad[:3]), signature={"kind": "metadata"}, replay={"job": job})
+    return dict(base, status=PROVED)
 
 
 def constant_obligations(job):
@@ -619,8 +723,8 @@ def main(tier, seed):
                      "amaranth.sim._pyrtl compiled code of the statements connect() adds"]
     rep.bounds = {"signatures": len(jobs), "depth": "<= 3", "members_per_level": "<= 3", "dimensions": "<= 2 (sizes 0..2)", "port_width": "0..4, signed, struct and enum shapes",
                   "interfaces": "2 (3 for all-output signatures), all argument orders",
-                  "outside": "component metadata / JSON schema: structural facts with no value to quantify over (see DESIGN.md); the ConnectionError and constant clauses are only "
-                             "sampled concretely (one corruption of each kind and four constant placements per pair), which is a test, not a solver claim"}
+                  "outside": "the ConnectionError, constant and metadata clauses are structural facts with no value to quantify over: they are only sampled concretely "
+                             "(signature and object corruptions of each kind, four constant placements, metadata of every generated signature), which is a test, not a solver claim"}
     rep.stubs = ["HSignalState", "if-converting interpreter"]
     rep.assumptions = []
     rep.rule = "hand-written corner signatures + seeded random signature trees; interface tuples by flipping signature or object; every argument order"
